@@ -198,11 +198,14 @@ def _shard_worker(args):
                 # counted as inconclusive (never as a violation); properties about termination (C09, C11, C17) carry
                 # their own, much shorter, alarms inside execute() and report those as violations themselves
                 old = signal.signal(signal.SIGALRM, _case_alarm)
-                signal.alarm(int(os.environ.get("VERIF_CASE_TIMEOUT", "300")))
+                signal.alarm(int(os.environ.get("VERIF_CASE_TIMEOUT", str(getattr(mod, "CASE_TIMEOUT", 300)))))
                 try:
                     outcome = mod.execute(case)
                 except _CaseTimeout:
                     col.record(case, dict(failures=[], nontrivial=False, classes=["case_timeout_inconclusive"]))
+                    col.extra.setdefault("timed_out_cases", [])
+                    if len(col.extra["timed_out_cases"]) < 3:
+                        col.extra["timed_out_cases"].append(canon_json(case)[:1500])
                     return
                 except Exception:  # harness error: do not turn into violation
                     col.errors.append(
